@@ -13,7 +13,7 @@ CPROVER_STUBS = '''
 #define __CPROVER_atomic_begin() ((void)0)
 #define __CPROVER_atomic_end() ((void)0)
 #define __CPROVER_assert(c,m) assert(c)
-unsigned long nondet_ulong(void){ static unsigned long x = 0x9E3779B97F4A7C15UL; x ^= x << 13; x ^= x >> 7; x ^= x << 17; return x; }
+unsigned long nondet_ulong(void){ return 0xA5A5A5A5A5A5A5A5UL; }   /* the native comparison fills the real object's storage with the same bytes */
 '''
 
 
@@ -230,6 +230,8 @@ REPLAY_SRC = r'''
 #include <cstddef>
 #include <cstdio>
 #include <cstdlib>
+#include <cstring>
+#include <new>
 #include <thread>
 #include <mutex>
 #include <condition_variable>
@@ -250,7 +252,7 @@ int main(int argc,char** argv){
   std::vector<std::vector<char>> prog; for(int a=4;a<argc;a++){ std::vector<char> p; for(char* s=argv[a];*s;s++) p.push_back(*s); prog.push_back(p); }
   nthreads=prog.size();
   for(int t=0;t<trials;t++){
-    rng=seed+t*7919u; cache_t* c=new cache_t();
+    rng=seed+t*7919u; void* raw_=operator new(sizeof(cache_t)+64); memset(raw_,0xA5,sizeof(cache_t)+64); cache_t* c=new(raw_) cache_t();   /* arbitrary prior storage content */
     for(int p=0;p<prefix;p++) c->insert(1+p);
     std::vector<std::vector<long>> res(nthreads); alive.assign(nthreads,1); turn=-1;
     std::vector<std::thread> th; long tok=100;
@@ -270,7 +272,7 @@ int main(int argc,char** argv){
     for(size_t a=0;a<all.size();a++){ bool in=false; for(long x:inserted) if(x==all[a]) in=true; if(!in) bad=true; for(size_t b=a+1;b<all.size();b++) if(all[a]==all[b]) bad=true; }
     if(all.size()!=inserted.size()) bad=true;
     if(bad){ printf("VIOLATION trial %d seed %u: inserted", t, seed); for(long x:inserted) printf(" %ld",x); printf(" | fetched"); for(long x:fetched) printf(" %ld",x); printf(" | drained"); for(long x:drained) printf(" %ld",x); printf("\n"); return 1; }
-    delete c;
+    c->~cache_t(); operator delete(raw_);
   }
   printf("no violation in %d random schedules\n",trials); return 0; }
 '''
@@ -287,8 +289,11 @@ def replay(chk, c):
 #include <cstdint>
 #include <cstddef>
 #include <cstdio>
+#include <cstring>
+#include <new>
 #include "SQuIDS/detail/Cache.h"
-int main(){ const int N=%d, L=2*N+2; for(unsigned m=0;m<(1u<<L);m++){ squids::detail::cache<long,N> c; long model[N+1]; int cnt=0; long tok=1;
+int main(){ const int N=%d, L=2*N+2; typedef squids::detail::cache<long,N> cache_t; alignas(16) static unsigned char raw_[sizeof(cache_t)+64];
+ for(unsigned m=0;m<(1u<<L);m++){ memset(raw_,0xA5,sizeof(raw_)); cache_t& c=*new(raw_) cache_t(); long model[N+1]; int cnt=0; long tok=1;
  for(int k=0;k<L;k++){ if((m>>k)&1){ bool r=c.insert(tok); if(r!=(cnt<N)){ printf("insert mismatch\\n"); return 1;} if(r) model[cnt++]=tok; tok++; } else { long v=c.get(); if(cnt==0){ if(v!=0){printf("get on empty\\n");return 1;} } else { if(v!=model[cnt-1]){printf("not LIFO\\n");return 1;} cnt--; } } } }
  return 0; }''' % ('#define SQUIDS_THREAD_LOCAL thread_local\n' if tls else '', N))
         exe = src[:-4]
@@ -306,6 +311,8 @@ int main(){ const int N=%d, L=2*N+2; for(unsigned m=0;m<(1u<<L);m++){ squids::de
     os.remove(src)
     os.remove(exe)
     c['native'] = p.stdout.strip()[-300:]
+    if p.returncode not in (0, 1):
+        return True, 'the real template crashed (exit status %d) under the explored schedules' % p.returncode
     return p.returncode == 1, p.stdout.strip().split('\n')[-1][:200]
 
 
